@@ -223,7 +223,11 @@ class PrintTextWavePass( BasePass ):
     # Now we create per-cycle signal value collect functions
     signal_names = []
     for x in top._dsl.all_signals:
-      if x.is_top_level_signal() and x.get_field_name() != "clk" and x.get_field_name() != "reset":
+      # Skip the implicit clk and reset of every component, but not a
+      # member of an interface that happens to be called clk or reset
+      is_implicit = x.get_field_name() in ( "clk", "reset" ) and \
+                    x.get_parent_object() is x.get_host_component()
+      if x.is_top_level_signal() and not is_implicit:
         signal_names.append( (x._dsl.level, repr(x)) )
 
     for _, x in [(0, 's.reset')] + sorted(signal_names):
